@@ -386,6 +386,12 @@ Fixpoint rd_objstm_header (n : nat) (inp : list N) (pos : N) (stm first end_off 
       end
   end.
 
+Fixpoint rd_assoc_z (k : Z) (l : list (Z * rd_obj)) : option rd_obj :=
+  match l with
+  | [] => None
+  | (k', v) :: r => if (k =? k')%Z then Some v else rd_assoc_z k r
+  end.
+
 (* all members that are cached: (id, object), later entries override earlier ones; warnings *)
 Definition rd_objstm_members (e : rd_env) (stm : N) (so : rd_obj) : (list (Z * rd_obj) * list rd_w) + (N * list rd_w) :=
   match rdo_stream so, rdo_val so with
@@ -415,7 +421,10 @@ Definition rd_objstm_members (e : rd_env) (stm : N) (so : rd_obj) : (list (Z * r
                       let '(oid, ooff, osize) := x in
                       match rd_lookup (rde_tbl e) (Z.to_N oid) 0 with
                       | Some (C3Comp s _) =>
-                          if s =? stm then
+                          (* ... && isUnresolved(og) (fix 8639fb91): a member that is cached already - by an earlier pair of
+                             this stream with the same number, or while the cross-reference streams were read - is left alone *)
+                          if (s =? stm) && negb (match rd_assoc_z oid (fst st) with Some _ => true | None => false end)
+                                        && negb (match rd_pre_get (rde_pre e) (Z.to_N oid) 0 with Some _ => true | None => false end) then
                             let r := parse_object false false rd_tk
                                        (firstn (Z.to_nat osize) (skipn (Z.to_nat ooff) data)) (Z.to_N ooff) in
                             let wp := map RdW_parse (pr_warn r) in
@@ -432,12 +441,6 @@ Definition rd_objstm_members (e : rd_env) (stm : N) (so : rd_obj) : (list (Z * r
       | _, _ => inr (3, w0)
       end
   | _, _ => inr (2, [])
-  end.
-
-Fixpoint rd_assoc_z (k : Z) (l : list (Z * rd_obj)) : option rd_obj :=
-  match l with
-  | [] => None
-  | (k', v) :: r => if (k =? k')%Z then Some v else rd_assoc_z k r
   end.
 
 (* ------------------------------------------------------------------ resolve *)
